@@ -174,6 +174,11 @@ func (p c20) Run(t *testing.T, s harness.Scenario) harness.Outcome {
 		if w.endPhase != 1 || !w.env.Quiet() {
 			return nil
 		}
+		for _, n := range w.env.Cluster.Nodes {
+			if n.Stalled || n.Silent {
+				return nil // a node that still owes replies: requests are in flight, nothing is settled
+			}
+		}
 		if sc.EndStop && !w.env.StopReturned {
 			return nil
 		}
